@@ -128,7 +128,7 @@ def body_c17(tier, seed, rep, only_prop=False, scale=1):
         t1 = min(HI, t0 + int(length * rng.choice([0, 0.5, 1, 2.5, 10, 60, 400, rng.uniform(0, 2500)])))
         dt = rng.choice([1, 1, 2, 3, 4, 5, 6, 7, 10, 12])
         # one call in four is a repeat: the same range was enumerated before and the caller edited the list it got back
-        again = rng.choice([None, None, None, None, None, "reverse", "pop", "append", "clear"])
+        again = rng.choice([None, None, None, None, None, "reverse", "pop", "append", "clear", "other-unit", "other-unit"])
         meta = {"kind": "calrange", "unit": u, "t0": t0, "t1": t1, "dt": dt, "again": again}
         guarded(lambda: "calrange|%s|%d|%d|%d|%s" % (u, t0, t1, dt, msl(cal_range(d3, u, t0, t1, dt, again))), meta)
     answers = drive(lines)
@@ -146,6 +146,12 @@ def body_c17(tier, seed, rep, only_prop=False, scale=1):
 
 def cal_range(d3, u, t0, t1, dt, again):
     """`range(start, stop, step)` of a calendar unit; with `again`, what the SECOND identical request returns after the caller edited the first answer"""
+    if again == "other-unit":
+        # the very same request was put to ANOTHER unit's interval just before: what one interval answered is not the other's answer
+        order = ["second", "minute", "hour", "day", "week", "month", "year"]
+        for v in order[order.index(u) + 1:]:        # coarser units only: the same window holds fewer of their boundaries
+            d3[v].range(to_dt(t0), to_dt(t1), dt)
+        return d3[u].range(to_dt(t0), to_dt(t1), dt)
     got = d3[u].range(to_dt(t0), to_dt(t1), dt)
     if again is None:
         return got
